@@ -50,6 +50,15 @@ theorem filter_sizePos (a : Dict) (h : AttrsDeep a) : a.filter (fun kv => sizePo
     | nil => simp [ValDeep] at this
     | cons x xs => rfl
 
+theorem sizePos_deep (v : AVal) (h : ValDeep v) : sizePos v = true := by
+  cases v with
+  | sc x => rfl
+  | dict e => rfl
+  | list xs =>
+    cases xs with
+    | nil => simp [ValDeep] at h
+    | cons x xs => rfl
+
 theorem unwrap_deep (xs : List Scalar) (h : 2 ≤ xs.length) : unwrap xs = .list xs := by
   match xs, h with
   | _ :: _ :: _, _ => rfl
@@ -76,7 +85,7 @@ theorem denote_buildAttrs : (kvs : List (Text × AVal)) → AttrsDeep kvs → (b
   | [], _ => rfl
   | (k, v) :: rest, h => by
     simp only [AttrsDeep] at h
-    simp only [buildAttrs, List.map_cons]
+    simp only [buildAttrs, sizePos_deep v h.1, if_true, List.map_cons]
     rw [denote_buildAttr k v h.1, denote_buildAttrs rest h.2]
 end
 
